@@ -213,6 +213,24 @@ Example c13_sds_hash_shortcut_refuted :
   option_map sx_ca (sp_ctx (provider_after true c1 [EvCert 1; EvCA 1; EvCA 2])) = Some 2.
 Proof. vm_compute. repeat split; reflexivity. Qed.
 
+(* ---- file-backed material (ca_cert / cert_chain / private_key given as paths) over histories of applications ---- *)
+Theorem c13_ca_pool_not_cached : tls_ca_pool_cached = false.
+Proof. exact (eq_refl false). Qed.
+(* For EVERY history of configuration applications: the policy in force after the last application is determined by that
+   configuration and the contents of its files at that moment - whatever was applied, and whatever the files held, before. *)
+Theorem c13_policy_is_latest : forall h a,
+  policy_after tls_ca_pool_cached (h ++ [a]) = Some (fget (fa_files a) (fa_ca a), fget (fa_files a) (fa_cert a)).
+Proof. exact policy_is_latest. Qed.
+Print Assumptions c13_policy_is_latest.
+Theorem c13_policy_independent_of_history : forall h h' a,
+  policy_after tls_ca_pool_cached (h ++ [a]) = policy_after tls_ca_pool_cached (h' ++ [a]).
+Proof. exact policy_independent_of_history. Qed.
+(* a pool cached by path keeps the CA that the file held at its first use *)
+Example c13_ca_cache_refuted :
+  policy_after true [mkFA 1 1 [(1, 1)]; mkFA 1 1 [(1, 2)]] = Some (1, 2) /\
+  policy_after false [mkFA 1 1 [(1, 1)]; mkFA 1 1 [(1, 2)]] = Some (2, 2).
+Proof. vm_compute. split; reflexivity. Qed.
+
 (* modelled behaviour outside the clause: while NO context is ready (SDS secrets not delivered) Conn() returns the raw connection *)
 Theorem c13_no_ready_context_is_raw : forall tcp insp b, conn_mode_of tcp false insp b = ModeRaw.
 Proof. exact not_ready_is_raw. Qed.
